@@ -83,6 +83,8 @@ func MarshalInternalMessage(m Message, s Serializer) ([]byte, error) {
 	return append([]byte{typ}, buf...), nil
 }
 
+// getMessage returns an empty message of the type identified by typ, or nil
+// if typ is not a known message type (typ comes from the network).
 func getMessage(typ byte) Message {
 	switch typ {
 	case messageTypeCreateShard:
@@ -120,7 +122,7 @@ func getMessage(typ byte) Message {
 	case messageTypeDeleteAvailableShard:
 		return &DeleteAvailableShardMessage{}
 	default:
-		panic(fmt.Sprintf("unknown message type %d", typ))
+		return nil
 	}
 }
 
